@@ -80,6 +80,8 @@ theorem walked_walkL (ks : List HN) : Walked (walkL [] 0 ks) where
     have := walkL_block ks [] 0 e he
     rw [walkL_length]; omega
 
+theorem table_length (W : List Ent) : (tableOf W).length = W.length := by simp [tableOf]
+
 section
 variable {W : List Ent} (hW : Walked W)
 include hW
@@ -114,8 +116,6 @@ theorem ent_unique {e e' : Ent} (he : e ∈ W) (he' : e' ∈ W) (h : e.pos = e'.
   rw [h1] at h2
   exact Option.some.inj h2
 
-theorem table_length : (tableOf W).length = W.length := by simp [tableOf]
-
 theorem parent_ent {e : Ent} (he : e ∈ W) : (tableOf W).parent e.pos = e.ups.head? := by
   unfold XPath.Doc.parent tableOf
   rw [List.getD_eq_getElem?_getD, List.getElem?_map, ent_get hW he]
@@ -129,7 +129,7 @@ theorem name_ent {e : Ent} (he : e ∈ W) : (tableOf W).name e.pos = e.node.name
 theorem ent_of_parent {j p : Nat} (h : (tableOf W).parent j = some p) :
     ∃ e ∈ W, e.pos = j ∧ e.ups.head? = some p := by
   have hj := parent_lt_length _ j p h
-  rw [table_length hW] at hj
+  rw [table_length W] at hj
   obtain ⟨e, he, rfl⟩ := ent_exists hW hj
   exact ⟨e, he, rfl, by rw [← parent_ent hW he]; exact h⟩
 
@@ -257,7 +257,7 @@ theorem desc_ent {e : Ent} (he : e ∈ W) : (tableOf W).desc e.pos = List.range'
   · exact List.pairwise_lt_range' 1
   · intro x
     unfold specDesc
-    simp only [List.mem_filter, List.mem_range, List.contains_iff_mem, List.mem_range', table_length hW]
+    simp only [List.mem_filter, List.mem_range, List.contains_iff_mem, List.mem_range', table_length W]
     have hb := hW.block e he
     constructor
     · rintro ⟨hx, ha⟩
@@ -275,5 +275,180 @@ theorem desc_ent {e : Ent} (he : e ∈ W) : (tableOf W).desc e.pos = List.range'
       exact (hW.ups y hy e.pos).mpr ⟨e, he, rfl, by omega, by omega⟩
 
 end
+
+/-! ### trees whose identities are the row indices (every parsed document: creation order = document order) -/
+
+theorem range'_split {l1 l2 : List Nat} {s n1 n2 : Nat} (h : l1 ++ l2 = List.range' s (n1 + n2))
+    (hl : l1.length = n1) : l1 = List.range' s n1 ∧ l2 = List.range' (s + n1) n2 := by
+  have := @List.range'_append s n1 n2 1
+  simp only [Nat.one_mul] at this
+  rw [← this] at h
+  exact List.append_inj h (by simp [hl])
+
+theorem ranked_el {i n a sc ks} {s : Nat} (h : (HN.el i n a sc ks).ids = List.range' s (HN.el i n a sc ks).size) :
+    i = s ∧ idsL ks = List.range' (s + 1) (sizeL ks) := by
+  rw [ids_el, size_el, Nat.add_comm 1, List.range'_succ] at h
+  simp only [List.cons.injEq] at h
+  exact h
+
+theorem ranked_cons {k : HN} {ks : List HN} {s : Nat} (h : idsL (k :: ks) = List.range' s (sizeL (k :: ks))) :
+    k.ids = List.range' s k.size ∧ idsL ks = List.range' (s + k.size) (sizeL ks) := by
+  rw [idsL_cons, sizeL_cons] at h
+  exact range'_split h (length_ids k)
+
+theorem eq_of_nodup_map {α β : Type} (f : α → β) : ∀ {l : List α}, (l.map f).Nodup → ∀ {a b : α}, a ∈ l → b ∈ l →
+    f a = f b → a = b
+  | [], _, _, _, ha, _, _ => by cases ha
+  | x :: xs, hn, a, b, ha, hb, hab => by
+    simp only [List.map_cons, List.nodup_cons, List.mem_map, not_exists, not_and] at hn
+    rcases List.mem_cons.mp ha with h1 | h1
+    · rcases List.mem_cons.mp hb with h2 | h2
+      · rw [h1, h2]
+      · exact absurd (by rw [← hab, h1]) (hn.1 b h2)
+    · rcases List.mem_cons.mp hb with h2 | h2
+      · exact absurd (by rw [hab, h2]) (hn.1 a h1)
+      · exact eq_of_nodup_map f hn.2 h1 h2 hab
+
+/-- the row of an element is its identity -/
+theorem walk_id_pos (h : HN) (up : List Nat) (s : Nat) (hr : h.ids = List.range' s h.size) :
+    ∀ e ∈ h.walk up s, e.node.id = e.pos := by
+  have h1 : (h.walk up s).map (fun e => e.node.id) = (h.walk up s).map (·.pos) := by
+    have a : (h.walk up s).map (fun e => e.node.id) = ((h.walk up s).map (·.node)).map HN.id := by
+      rw [List.map_map]; rfl
+    have b : ((h.subs none).map (·.2)).map HN.id = (h.subs none).map (fun e => e.2.id) := by
+      rw [List.map_map]; rfl
+    rw [a, walk_nodes h up s none, b, subs_ids, walk_pos, hr]
+  exact List.map_inj_left.mp h1
+
+mutual
+/-- every subtree of such a tree is numbered from its own row on -/
+theorem walk_ranked : ∀ (h : HN) (up : List Nat) (s : Nat), h.ids = List.range' s h.size →
+    ∀ e ∈ h.walk up s, e.node.ids = List.range' e.pos e.node.size
+  | .text _, _, _, _ => by simp
+  | .el i n a sc ks, up, s, hr => by
+    intro e he
+    simp only [walk_el, List.mem_cons] at he
+    rcases he with rfl | he
+    · exact hr
+    · exact walkL_ranked ks (s :: up) (s + 1) (ranked_el hr).2 e he
+theorem walkL_ranked : ∀ (ks : List HN) (up : List Nat) (s : Nat), idsL ks = List.range' s (sizeL ks) →
+    ∀ e ∈ walkL up s ks, e.node.ids = List.range' e.pos e.node.size
+  | [], _, _, _ => by simp
+  | k :: ks, up, s, hr => by
+    intro e he
+    simp only [walkL_cons, List.mem_append] at he
+    rcases he with he | he
+    · exact walk_ranked k up s (ranked_cons hr).1 e he
+    · exact walkL_ranked ks up (s + k.size) (ranked_cons hr).2 e he
+end
+
+/-- … so the rows of its element blocks are their identities -/
+theorem kidPos_eq_kidIds : ∀ (ks : List HN) (s : Nat), idsL ks = List.range' s (sizeL ks) → kidPos s ks = kidIds ks
+  | [], _, _ => rfl
+  | .text _ :: ks, s, hr => by
+    have := (ranked_cons hr).2
+    simp only [size_text, Nat.add_zero] at this
+    simp only [kidPos, kidIds]
+    exact kidPos_eq_kidIds ks s this
+  | .el i n a sc ks' :: ks, s, hr => by
+    have h1 := (ranked_cons hr).1
+    have h2 := (ranked_cons hr).2
+    simp only [kidPos, kidIds, List.cons.injEq]
+    exact ⟨(ranked_el h1).1.symm, kidPos_eq_kidIds ks _ h2⟩
+
+mutual
+/-- every element with the identities of its ancestors, nearest first (`up` above the top), document order -/
+def HN.ancs (up : List Nat) : HN → List (Nat × List Nat)
+  | .text _ => []
+  | .el i _ _ _ ks => (i, up) :: ancsL (i :: up) ks
+def ancsL (up : List Nat) : List HN → List (Nat × List Nat)
+  | [] => []
+  | k :: ks => k.ancs up ++ ancsL up ks
+end
+
+@[simp] theorem ancsL_nil (up) : ancsL up [] = [] := by simp [ancsL]
+@[simp] theorem ancsL_cons (up) (k : HN) (ks : List HN) : ancsL up (k :: ks) = k.ancs up ++ ancsL up ks := by simp [ancsL]
+@[simp] theorem ancs_text (up) (x : Str) : (HN.text x).ancs up = [] := by simp [HN.ancs]
+@[simp] theorem ancs_el (up i n a sc ks) : (HN.el i n a sc ks).ancs up = (i, up) :: ancsL (i :: up) ks := by simp [HN.ancs]
+
+mutual
+/-- the nearest ancestor is the parent `subs` records -/
+theorem ancs_subs : ∀ (h : HN) (up : List Nat),
+    (h.ancs up).map (fun y => (y.1, y.2.head?)) = (h.subs up.head?).map (fun x => (x.2.id, x.1))
+  | .text _, _ => by simp
+  | .el i n a sc ks, up => by
+    have := ancsL_subsL ks (i :: up)
+    simp only [List.head?_cons] at this
+    simp [HN.id, this]
+theorem ancsL_subsL : ∀ (ks : List HN) (up : List Nat),
+    (ancsL up ks).map (fun y => (y.1, y.2.head?)) = (subsL up.head? ks).map (fun x => (x.2.id, x.1))
+  | [], _ => by simp
+  | k :: ks, up => by simp [ancs_subs k up, ancsL_subsL ks up]
+end
+
+mutual
+/-- in such a tree the walk's positions are the identities, ancestors included -/
+theorem walk_ancs : ∀ (h : HN) (up : List Nat) (s : Nat), h.ids = List.range' s h.size →
+    (h.walk up s).map (fun e => (e.pos, e.ups)) = h.ancs up
+  | .text _, _, _, _ => by simp
+  | .el i n a sc ks, up, s, hr => by
+    obtain ⟨rfl, h2⟩ := ranked_el hr
+    simp [walkL_ancsL ks (i :: up) (i + 1) h2]
+theorem walkL_ancsL : ∀ (ks : List HN) (up : List Nat) (s : Nat), idsL ks = List.range' s (sizeL ks) →
+    (walkL up s ks).map (fun e => (e.pos, e.ups)) = ancsL up ks
+  | [], _, _, _ => by simp
+  | k :: ks, up, s, hr => by
+    simp [walk_ancs k up s (ranked_cons hr).1, walkL_ancsL ks up (s + k.size) (ranked_cons hr).2]
+end
+
+/-- **The table of a tree numbered in document order, read by identity**: row `i` is element `i`; its parent
+    column, `children`, `desc` and `anc` are the element's parent, element blocks, subtree and ancestors. -/
+theorem toDoc_ranked (h : HN) (hr : h.ids = List.range' 0 h.size) :
+    h.toDoc.isPreOrder = true ∧ h.toDoc.length = h.size ∧
+    (∀ x ∈ h.subs none, h.toDoc.name x.2.id = x.2.name ∧ h.toDoc.parent x.2.id = x.1 ∧
+        h.toDoc.children x.2.id = kidIds x.2.kids ∧ h.toDoc.desc x.2.id = idsL x.2.kids) ∧
+    (∀ y ∈ h.ancs [], h.toDoc.anc y.1 = y.2) := by
+  have hW := walked_walk h
+  refine ⟨table_isPreOrder hW, by rw [HN.toDoc, table_length, walk_length], ?_, ?_⟩
+  · intro x hx
+    -- the entry of the walk that carries this element
+    have hmem : x.2 ∈ (h.walk [] 0).map (·.node) := by
+      rw [walk_nodes h [] 0 none]; exact List.mem_map_of_mem hx
+    obtain ⟨e, he, hen⟩ := List.mem_map.mp hmem
+    have hid := walk_id_pos h [] 0 hr e he
+    have hrk := walk_ranked h [] 0 hr e he
+    rw [← hen, hid]
+    -- its parent, through `ancs`
+    have hpar : e.ups.head? = x.1 := by
+      have h1 : (e.pos, e.ups.head?) ∈ (h.ancs []).map (fun y => (y.1, y.2.head?)) := by
+        rw [← walk_ancs h [] 0 hr, List.map_map]
+        exact List.mem_map.mpr ⟨e, he, rfl⟩
+      rw [ancs_subs h []] at h1
+      obtain ⟨x', hx', h2⟩ := List.mem_map.mp h1
+      simp only [Prod.mk.injEq] at h2
+      -- identities are pairwise distinct, so `x'` is `x`
+      have hnd : ((h.subs none).map (fun x => x.2.id)).Nodup := by
+        rw [subs_ids, hr]; exact List.nodup_range' (step := 1) (by omega)
+      have : x' = x := by
+        apply eq_of_nodup_map (fun x : Option Nat × HN => x.2.id) hnd hx' hx
+        show x'.2.id = x.2.id
+        rw [h2.1, ← hid, hen]
+      rw [← h2.2, this]
+    cases hnode : e.node with
+    | text _ =>
+      have := (walk_block h [] 0 e he).2.2
+      rw [hnode] at this; simp at this
+    | el i n a sc ks =>
+      rw [hnode] at hrk
+      have hk := (ranked_el hrk).2
+      refine ⟨by rw [HN.toDoc, name_ent hW he, hnode], by rw [HN.toDoc, parent_ent hW he, hpar], ?_, ?_⟩
+      · rw [HN.toDoc, children_ent hW he, hnode]
+        exact kidPos_eq_kidIds ks _ hk
+      · rw [HN.toDoc, desc_ent hW he, hnode, HN.kids, hk, size_el]
+        congr 1; omega
+  · intro y hy
+    rw [← walk_ancs h [] 0 hr] at hy
+    obtain ⟨e, he, rfl⟩ := List.mem_map.mp hy
+    exact anc_ent hW e.pos he rfl
 
 end AHP.TM
